@@ -4,7 +4,7 @@ import json, os, re, shutil, subprocess, sys, time, hashlib, random
 ROOT = os.path.dirname(os.path.dirname(os.path.abspath(__file__)))
 SPEC = os.path.join(ROOT, "spec")
 WORK = os.path.join(ROOT, ".work")
-EVID = os.path.join(ROOT, "evidence")
+EVID = os.environ.get("VERIF_EVIDENCE_DIR") or os.path.join(ROOT, "evidence")   # seed trials write elsewhere
 REPLAYS = os.path.join(ROOT, "replays")
 REPO = os.environ.get("VERIF_REPO", "/repo")
 NCPU = int(os.environ.get("VERIF_WORKERS", os.cpu_count() or 4))
